@@ -113,7 +113,7 @@ REG.contract(T + "BSpline._initialize", params=BS_PARAMS,
                       # the knot vector is ascending
                       "forall(0, self._knots.shape[0] - 1, lambda k: self._knots[k] <= self._knots[k + 1])"])
 REG.contract(T + "BSpline.eval", params={"x": "arr1"}, returns="arr2", tags=["C14", "C06"],
-             requires=["self._knots.shape[0] - (self._degree + 1) >= 1"],
+             requires=["self._knots.shape[0] - (self._degree + 1) >= 1", "x.shape[0] >= 1"],
              ensures=["result.shape[0] == x.shape[0]",
                       "result.shape[1] == self._knots.shape[0] - (self._degree + 1) - (0 if self._intercept else 1)",
                       # row r holds the basis functions of the remembered knots at x[r] (the first one dropped without intercept):
@@ -127,7 +127,7 @@ REG.contract(T + "BSpline.eval", params={"x": "arr1"}, returns="arr2", tags=["C1
 REG.contract(T + "BSpline.__call__", params=BS_PARAMS, returns="arr2", tags=WO + ["C14"],
              frame_when={"self.params_set": ["self.params_set", "self._intercept", "self._degree", "self._knots"]},
              requires=["implies(self.params_set, self._knots.shape[0] - (self._degree + 1) >= 1)",
-                       "implies(not self.params_set, x.shape[0] >= 1)"],
+                       "x.shape[0] >= 1"],         # scipy's splev refuses an empty vector: its model covers n >= 1 only
              modifies=["self.params_set", "self._intercept", "self._degree", "self._knots"],
              raises={"ValueError": None},
              ensures=["self.params_set",
@@ -288,4 +288,4 @@ TABLES = [
 ]
 
 
-ASSUMPTIONS = ['np.mean / np.std / np.min / np.max are uninterpreted functions of the data vector (floats as reals)', "BSpline parameters are typed (degree: int, df: int or None, knots: vector or None, bounds: real or None): the refusal of non-integer degree / df is not covered", "np.percentile(x, q) for 0 <= q <= 100 lies between min(x) and max(x); np.linspace closed form; ndarray.sort() = ascending rearrangement (assumed, validated by ext-valid)", 'scipy.interpolate.splev returns a fresh vector of the length of x (values unconstrained)', "Series: x.unique().tolist() / sorted() modelled through an uninterpreted order 'le' on values"]
+ASSUMPTIONS = ['np.mean / np.std / np.min / np.max are uninterpreted functions of the data vector (floats as reals)', "BSpline parameters are typed (degree: int, df: int or None, knots: vector or None, bounds: real or None): the refusal of non-integer degree / df is not covered", "np.percentile(x, q) for 0 <= q <= 100 lies between min(x) and max(x); np.linspace closed form; ndarray.sort() = ascending rearrangement (assumed, validated by ext-valid)", 'scipy.interpolate.splev(x, (knots, e_i, degree)) for non-empty x returns a fresh vector of the length of x whose r-th entry is a function of x[r], the knots, the degree and i only (validated by ext-valid); an empty x is outside the model (scipy raises for it)', "Series: x.unique().tolist() / sorted() modelled through an uninterpreted order 'le' on values"]
